@@ -8,8 +8,11 @@ closure writes variable `(g l).wvar`, and after `Do` returns it reads `(g l).rva
 threads, any schedule.  Happens-before = program order ∪ (the closure's exit → every later return
 from `Do` on the same cell), which is what the Go memory model guarantees for `sync.Once`.
 
-Everything else in the package is call-local or read-only (`wordlist.*` slices and the two
-`big.Int` masks are only read: pinned skeletons), so this is the only shared mutable state.
+Everything else in the package is call-local or read-only: for the function bodies translated
+from the source this is the theorem `src_c12_footprint` (`Props/Source/C12.lean`: no exported
+function changes the package state except through its one call of `mapping()`), and the translator
+refuses any function that writes a package-level variable or uses the two `big.Int` masks other than
+as read-only arguments; so this is the only shared mutable state.
 The theorem is about this protocol model; the scheduler and the memory model are assumed, and the
 race detector run by the harness only supports. -/
 namespace Bip39V
